@@ -236,6 +236,17 @@ func main() {
 			cleanup()
 		}
 		os.Exit(code)
+	case "overlay":
+		// developer aid: generate the overlay into the given directory and print its path
+		if len(os.Args) < 3 {
+			fatal("overlay needs a directory")
+		}
+		os.MkdirAll(os.Args[2], 0o755)
+		rep, err := instrument.Generate(instrument.Options{RepoDir: repoDir, VerifDir: verifDir, OutDir: os.Args[2]})
+		if err != nil {
+			fatal("%v", err)
+		}
+		fmt.Println(rep.Overlay)
 	case "replay":
 		if len(os.Args) < 3 {
 			fatal("replay needs a file")
